@@ -153,7 +153,7 @@ def call_builtin(ex, name, args, kwargs, node):
         return 1
     if name == "len":
         (x,) = args
-        if isinstance(x, (Seq, ObjSeq)):
+        if isinstance(x, (Seq, ObjSeq, V.TupleSeq)):
             return x.len()
         raise OutOfSubset("len of %r" % (x,), node)
     if name == "range":
@@ -257,6 +257,13 @@ def call_builtin(ex, name, args, kwargs, node):
     if name == "reversed":
         return list(reversed(ex.concrete_items(args[0], node)))
     if name == "isinstance":
+        # floats are modelled as reals and ints as mathematical integers: the two type tests that the encoding itself decides
+        if len(args) == 2 and isinstance(args[1], Func) and args[1].kind == "builtin":
+            x, t = V.bool_to_int(args[0]) if not isinstance(args[0], bool) else args[0], args[1].a[0]
+            if t == "float" and not isinstance(x, bool) and (V.is_real(x) or isinstance(x, Fraction)):
+                return True
+            if t == "int" and not isinstance(x, bool) and V.is_int(x):
+                return True
         raise OutOfSubset("isinstance", node)
     if name == "set":
         if not args:
